@@ -43,6 +43,16 @@ Definition enc_one (fl : N) (sq : Z) (pid : N) (im : list (N * bytes)) (sm : lis
 
 Definition check (c : cval) : verdict :=
   match c with
+  (* (9 nkeys vlen): nkeys int keys sharing one value of vlen bytes, encoded over a counting writer (the
+     bytes are never materialised; the models are not evaluated on them).  The header info is
+     2 + (1 + 2 + nkeys * (2 + 2 + vlen)) bytes padded to a multiple of 4: Encode must fail exactly when
+     that exceeds 65536 — at 4 GiB and beyond as well (repair of /repo: the comparison was made on
+     uint32(size)) *)
+  | L [L [I 9%Z; I nk; I vl]; L [I failed; I _]] =>
+    let raw := (2 + (if nk =? 0 then 0 else 3 + nk * (4 + vl)))%Z in
+    let size := ((raw + 3) / 4 * 4)%Z in
+    let want := (65536 <? size)%Z in
+    mk (Bool.eqb (negb (failed =? 0)%Z) want) (Bool.eqb (negb (failed =? 0)%Z) want) 900
   | L [L [I fl; I sq; I pid; ims; sms; pl; I chunk]; out] =>
     let fl := Z.to_N fl in
     let pid := Z.to_N pid in
